@@ -136,7 +136,7 @@ fn layout_shape_ok(src: &Src, ty: &str) -> Result<(), String> {
     let t = sm::tsx(&f.block);
     let (q1, q2, it) = if ty == "UnicodeEscape" { ("'\\''", "'\"'", "forchinsource.chars()") } else { ("b'\\''", "b'\"'", "forchinsource.iter()") };
     let call = if ty == "UnicodeEscape" { "c=>Self::escaped_char_len(c)," } else { "c=>Self::escaped_char_len(*c)," };
-    let want_match = format!("letincr=matchch{{{}=>{{single_count+=1;1}}{}=>{{double_count+=1;1}}{}}};", q1, q2, call);
+    let want_match = format!("letincr=matchch{{{}=>{{single_count+=1;1}},{}=>{{double_count+=1;1}},{}}};", q1, q2, call);
     if !t.contains(it) {
         return Err("the layout does not iterate over every source character".into());
     }
@@ -301,8 +301,18 @@ fn fast_path(cx: &mut Ctx, esc: &Src) {
         ("str-source_len", "fnsource_len(&self)->usize{self.source.len()}"),
         ("str-repr-write", "letquote=self.0.layout().quote.to_char();formatter.write_char(quote)?;self.0.write_body(formatter)?;formatter.write_char(quote)"),
         ("bytes-repr-write", "letquote=self.0.layout().quote.to_char();formatter.write_char('b')?;formatter.write_char(quote)?;self.0.write_body(formatter)?;formatter.write_char(quote)"),
-        ("slow-uses-layout-quote", "Self::write_char(ch,self.layout().quote,formatter)?;"),
     ];
+    // the slow path writes every source character through write_char with the layout's quote (loop or iterator adaptor)
+    {
+        let re = regex::Regex::new(r"Self::write_char\(\*?(\w+),self\.layout\(\)\.quote,formatter\)").unwrap();
+        let n = re.find_iter(&t.text).count();
+        let iterates = (t.contains("inself.source.chars()") || t.contains("self.source.chars().try_for_each(")) && (t.contains("inself.source.iter()") || t.contains("self.source.iter().try_for_each("));
+        if n == 2 && iterates {
+            cx.ok(rule, "slow-uses-layout-quote");
+        } else {
+            cx.fail(rule, &format!("{}/slow-uses-layout-quote", rule), &esc.rel, "expected shape not found: slow-uses-layout-quote");
+        }
+    }
     for (k, frag) in checks {
         if t.contains(frag) {
             cx.ok(rule, k);
